@@ -1,0 +1,28 @@
+//! Verification hooks (only compiled with `--cfg sycamore_verif`).
+//!
+//! Add-only, read-only introspection of the reactive graph for the verification harnesses. Nothing
+//! in here is used by the library itself.
+
+use crate::node::NodeState;
+use crate::root::Root;
+use crate::NodeHandle;
+
+/// Number of live reactive nodes (signals, memos, effects, scopes) in the slot map of the current
+/// global [`Root`]. Panics if there is no current root.
+pub fn node_count() -> usize {
+    Root::global().nodes.borrow().len()
+}
+
+/// Snapshot of the reactive node referenced by `handle`:
+/// `(children.len(), dependents.len(), dependencies.len(), state == Dirty)`, or `None` if the node
+/// has been disposed.
+pub fn snapshot(handle: NodeHandle) -> Option<(usize, usize, usize, bool)> {
+    let nodes = handle.1.nodes.borrow();
+    let node = nodes.get(handle.0)?;
+    Some((
+        node.children.len(),
+        node.dependents.len(),
+        node.dependencies.len(),
+        node.state == NodeState::Dirty,
+    ))
+}
